@@ -674,5 +674,5 @@ def check(ctx):
         m3(ctx, al, 4000)
     else:
         m2(ctx, al, "PolyC07_quick.cfg")
-        m3(ctx, al, 400)
+        m3(ctx, al, 800)
     ctx.exhaustive = True
